@@ -163,6 +163,17 @@ def gen_ff(rng, findings=(), protein=None, multires=None, syntax=None):
         links.append(dict(kind="replace", resnames=[b["name"] for b in singles],
                           atoms=[("BB", {"charge": rng.choice([0.75, -0.75])}, {}), ("+BB", {}, {})],
                           ixns=[dict(sect="constraints", atoms=["BB", "+BB"], params=_params(rng))]))
+    # a one-residue link that names its residue on SOME of its atoms only (no link-wide resname): the residue-level
+    # pattern then fits every residue, and it is the atom that carries the name that keeps the link inside residues
+    # of that name — other blocks use the same atom names
+    two = [b for b in singles if len(b["atoms"]) >= 2]
+    if two and rng.random() < 0.3:
+        block = rng.choice(two)
+        a0, a1 = block["atoms"][0]["atomname"], block["atoms"][1]["atomname"]
+        links.append(dict(kind="partial", resnames=[block["name"]], header=False,
+                          # (the attribute it replaces, the charge of the SECOND atom, is one no other link reads or writes)
+                          atoms=[(a1, {"charge": rng.choice([0.5, -0.5])}, {"resname": block["name"]}), (a0, {}, {})],
+                          ixns=[dict(sect="pairs", atoms=[a0, a1], params=_params(rng, "pairs"))]))
     # a link that SELECTS its atom on an attribute (the charge the block gives it); a `replace` of that attribute
     # by another link must not decide whether this one applies, whatever the order of the definitions
     if rng.random() < 0.35:
@@ -304,7 +315,7 @@ def render_block(block):
 
 
 def render_link(link):
-    lines = ["[ link ]", 'resname "%s"' % "|".join(link["resnames"])]
+    lines = ["[ link ]"] + (['resname "%s"' % "|".join(link["resnames"])] if link.get("header", True) else [])
     if link.get("molmeta"):
         lines.append("[ molmeta ]")
         for k, v in link["molmeta"]:
